@@ -65,6 +65,14 @@ CHECKS = {
           'tags', 'DESIGN.md section 4 C18',
           'Generated names and tag sets built from syntax-bearing tokens, rendered in carbon syntax in all permutations and in OpenMetrics syntax; all renderings must normalise to one idempotent form that contains exactly the generated name and tags; rule-violating names must be rejected and stored/relayed unchanged by the real processors. One genuine defect (OpenMetrics dispatch on carbon syntax) found and fixed.',
           'Strings that are OpenMetrics syntax by shape are read as such; rejected OpenMetrics renderings are outside the comparison.'),
+  'C16': ('exploration', 'property-based testing against evaluators written from the documented rule-file formats (re-free regex subset, independent aggregation-pattern matcher, reference ring)',
+          'ring', 'DESIGN.md section 4 C16',
+          'Generated relay-rules files (order, continue flags, default placement, destination forms, configured subsets) through RelayRulesRouter, and generated aggregation-rules files through both aggregated routers; returned destination sets must equal the evaluator / the union of the reference ring\'s replica sets of the derived aggregate names.',
+          'Only valid rule files are generated; FastHashRing has no published reference (compared with the plain fast router).'),
+  'C19': ('exploration', 'property-based testing against an evaluator written from the documented file formats; create arguments observed at the in-memory backend',
+          'memdb', 'DESIGN.md section 4 C19',
+          'Generated storage-schemas.conf / storage-aggregation.conf (section order, overlapping patterns, missing keys, all unit suffixes, multi-archive retentions, key capitalisation) loaded through the writer\'s reload functions; each new metric is stored and one writer pass produces the create() call whose arguments must equal the evaluator\'s first-match result.',
+          'Backend archive validation not modelled; malformed retention strings not generated.'),
 }
 
 PENDING_REASON = 'check not built yet in this session (design in DESIGN.md section 4); will be claimed once its check is quiet on the unchanged tree and catches its mutants'
